@@ -167,6 +167,62 @@ func accessorCheck(c *Case) (viol []Violation) {
 	return
 }
 
+// genC03Boundary places messages where position matters: a short message that
+// ends within a few bytes of the end of the connection's current 4 KiB block
+// (bodies are stored back to back, so the position is the sum of the body sizes
+// so far), and body-less / short message types that carry 9-12 KiB.
+func genC03Boundary(r *Rand) *Case {
+	c := &Case{Variant: "boundary", Server: ServerCfg{Limit: 65536}, Programs: map[string]*Program{}}
+	prog := func(key string) {
+		c.Programs[key] = &Program{Stmts: []*StmtProg{{Cols: []ColSpec{{Name: "a", OID: pgwire.OIDInt4}}, Ops: []Op{{K: "row", Row: []Val{{G: "int32", I: 7}}}, {K: "complete", Tag: "SELECT 1"}}}}}
+	}
+	query := func(key string, body int) pgwire.FMsg {
+		// a simple query whose body (text + NUL) has exactly that size
+		prog(key)
+		q := key
+		for len(q)+1 < body {
+			q += " "
+		}
+		return pgwire.FMsg{K: "Q", S1: q}
+	}
+	su := startupMsg("u", "d")
+	used := int(su.DeclaredBody())
+	var msgs []pgwire.FMsg
+	if r.Bool() {
+		// short message at the end of the block
+		small := r.PickInt(5, 12, 13, 14, 15, 16, 17)
+		left := r.PickInt(0, 1, 2, 3, 15, 16)
+		fill := 4096 - used - small - left
+		msgs = append(msgs, query("fill", fill), query("s", small), query("n", 9), pgwire.FMsg{K: "S"}, query("z", 13))
+	} else {
+		// 9-12 KiB inside message types that are usually tiny
+		n := r.PickInt(9000, 9998, 9999, 10000, 10001, 12000)
+		name := strings.Repeat("n", n)
+		prog("long")
+		switch r.Intn(4) {
+		case 0:
+			msgs = append(msgs, pgwire.FMsg{K: "P", S1: name, S2: "long"}, pgwire.FMsg{K: "D", Sub: 'S', S1: name}, pgwire.FMsg{K: "S"})
+		case 1:
+			msgs = append(msgs, pgwire.FMsg{K: "P", S1: name, S2: "long"}, pgwire.FMsg{K: "B", S1: name, S2: name}, pgwire.FMsg{K: "E", S1: name}, pgwire.FMsg{K: "C", Sub: 'P', S1: name}, pgwire.FMsg{K: "S"})
+		case 2:
+			msgs = append(msgs, pgwire.FMsg{K: "S", Tail: []byte(name)}, pgwire.FMsg{K: "H", Tail: []byte(name)}, pgwire.FMsg{K: "S"})
+		case 3:
+			msgs = append(msgs, pgwire.FMsg{K: "C", Sub: 'S', S1: name}, pgwire.FMsg{K: "D", Sub: 'P', S1: name}, pgwire.FMsg{K: "S"})
+		}
+		msgs = append(msgs, query("after", 20), pgwire.FMsg{K: "S"}, query("z", 13))
+	}
+	steps := []Step{{Msgs: []pgwire.FMsg{su}}}
+	if r.Bool() {
+		steps = append(steps, Step{Msgs: msgs})
+	} else {
+		for i := range msgs {
+			steps = append(steps, Step{Msgs: msgs[i : i+1]})
+		}
+	}
+	c.Conns = []ConnCase{{Steps: steps, Cuts: genCuts(r)}}
+	return c
+}
+
 func genAccessorCase(r *Rand) *Case {
 	var body []byte
 	n := r.Range(0, 6)
@@ -381,6 +437,9 @@ func init() {
 		Gen: func(r *Rand, tier string) *Case {
 			if r.Chance(1, 5) {
 				return genAccessorCase(r)
+			}
+			if r.Chance(1, 10) {
+				return genC03Boundary(r)
 			}
 			c := &Case{Server: ServerCfg{Limit: r.PickInt(1000, 4096, 65536, 65536)}}
 			if r.Chance(1, 5) {
